@@ -263,7 +263,7 @@ PROPS["C15"].update(
 )
 PROPS["C20"].update(
     level_text="Exceptional postconditions: every _begin_apply and UnaryOperation.apply must raise ColumnError for each documented ill-formedness whatever the preferred-engine options (proved from the body: _begin_apply runs first), and raises it only then; "
-               "Chain/Join _begin_apply/_finish_apply (EngineError/ColumnError), Slice/Calculation/Join/ColumnFunction/PredicateFunction/LeafRelation constructors and BaseRelation.__getitem__ (TypeError/ValueError) likewise. The public factory methods of BaseRelation themselves (with_rows_satisfying, with_calculated_column, with_only_columns, without_duplicates, sorted, chain, materialized, transferred_to) are under contract as well (contracts/factories.py): documented rows, and the must-raise clauses restated at the factory; Relation.join has no contract of its own (its pieces have).",
+               "Chain/Join _begin_apply/_finish_apply (EngineError/ColumnError), Slice/Calculation/Join/ColumnFunction/PredicateFunction/LeafRelation constructors and BaseRelation.__getitem__ (TypeError/ValueError) likewise. The public factory methods of BaseRelation themselves (with_rows_satisfying, with_calculated_column, with_only_columns, without_duplicates, sorted, chain, materialized, transferred_to) are under contract as well (contracts/factories.py): documented rows, and the must-raise clauses restated at the factory; Relation.join: natural join on the shared key columns filtered by a caller-supplied predicate (the default predicate is not tied down).",
     level_note=_COMMON_NOTE + "'A rejected call leaves every existing relation unchanged' is the frame property C09, not re-proved here.",
 )
 PROPS["C09"].update(
